@@ -1071,6 +1071,115 @@ Proof.
   - destruct (subkeys limit c [] root path) as [[[ks e] c1]| |]; cbn; discriminate.
 Qed.
 
+(* ---------------------------------------------------------------------------------------------- *)
+(* histories over a family of related objects (twins made by public_copy, re-read copies, cached children) *)
+Notation run_fop := (run_fop pt padd pO smul pG order pt_eqb sec unsec hmac512 hash160 loop_fuel).
+Notation run_fops := (run_fops pt padd pO smul pG order pt_eqb sec unsec hmac512 hash160 loop_fuel).
+Notation reload := (Bip32.reload pt pO smul pG order pt_eqb sec unsec).
+Notation fstate := (fstate pt).
+Notation fres := (fres pt).
+
+Definition fam_ok (st : fstate) : Prop := Forall (fun rc => cache_ok (fst rc) (snd rc)) st.
+
+(* the cache-free answer, given the root objects that exist at the time of the call *)
+Definition fop_raw (limit : Z) (roots : list node) (o : fop) : fres :=
+  match o with
+  | FCall r op =>
+    match nth_error roots r with Some root => FRes pt (op_raw limit root op) | None => FSkip pt end
+  | FPublicCopy r p =>
+    match nth_error roots r with
+    | Some root => match derive_raw root p with Ret nd => FNew pt (public_copy nd) | _ => FSkip pt end
+    | None => FSkip pt
+    end
+  | FReload r p =>
+    match nth_error roots r with
+    | Some root => match derive_raw root p with Ret nd => FNew pt (reload nd) | _ => FSkip pt end
+    | None => FSkip pt
+    end
+  end.
+
+Lemma Forall_set_nth {A} (P : A -> Prop) (x : A) : forall n l, Forall P l -> P x -> Forall P (set_nth n x l).
+Proof.
+  induction n as [|n IH]; intros [|h t] F Hx; cbn [set_nth]; try constructor; inversion F; subst; auto.
+Qed.
+
+Lemma fam_ok_nth st r root c : fam_ok st -> nth_error st r = Some (root, c) -> cache_ok root c.
+Proof.
+  intros F H. apply nth_error_In in H. unfold fam_ok in F. rewrite Forall_forall in F. apply (F _ H).
+Qed.
+
+Lemma new_root_ok st x : fam_ok st -> fam_ok (new_root pt st x).
+Proof.
+  intros F. destruct x as [k| |]; cbn [new_root]; try exact F.
+  apply Forall_app. split; [exact F|]. constructor; [|constructor]. apply cache_ok_nil.
+Qed.
+
+Lemma new_root_roots st x : exists extra, map fst (new_root pt st x) = map fst st ++ extra.
+Proof.
+  destruct x as [k| |]; cbn [new_root]; [|exists []; now rewrite app_nil_r|exists []; now rewrite app_nil_r].
+  exists [k]. rewrite map_app. reflexivity.
+Qed.
+
+Lemma run_fop_ok limit st o r st' :
+  fam_ok st -> run_fop limit st o = (r, st') ->
+  (r = FSkip pt \/ r = fop_raw limit (map fst st) o) /\ fam_ok st'.
+Proof.
+  intros F H. destruct o as [n op|n p|n p]; cbn [Bip32.run_fop fop_raw] in *.
+  - destruct (nth_error st n) as [[root c]|] eqn:N.
+    + rewrite (map_nth_error fst _ _ N). cbn [fst].
+      destruct (run_op limit root c op) as [x c1] eqn:R. injection H as <- <-.
+      destruct (run_op_ok limit root c op x c1 (fam_ok_nth _ _ _ _ F N) R) as [E C1].
+      split.
+      * destruct E as [-> | ->]; [left; reflexivity|]. destruct (op_raw limit root op); cbn [fres_of]; auto.
+      * apply Forall_set_nth; [exact F|exact C1].
+    + injection H as <- <-. split; [left; reflexivity|exact F].
+  - destruct (nth_error st n) as [[root c]|] eqn:N.
+    + rewrite (map_nth_error fst _ _ N). cbn [fst].
+      destruct (op_target pt root c p) as [nd|] eqn:T.
+      * rewrite (op_target_ok root c p nd (fam_ok_nth _ _ _ _ F N) T). injection H as <- <-.
+        split; [right; reflexivity|apply new_root_ok; exact F].
+      * injection H as <- <-. split; [left; reflexivity|exact F].
+    + injection H as <- <-. split; [left; reflexivity|exact F].
+  - destruct (nth_error st n) as [[root c]|] eqn:N.
+    + rewrite (map_nth_error fst _ _ N). cbn [fst].
+      destruct (op_target pt root c p) as [nd|] eqn:T.
+      * rewrite (op_target_ok root c p nd (fam_ok_nth _ _ _ _ F N) T). injection H as <- <-.
+        split; [right; reflexivity|apply new_root_ok; exact F].
+      * injection H as <- <-. split; [left; reflexivity|exact F].
+    + injection H as <- <-. split; [left; reflexivity|exact F].
+Qed.
+
+Lemma run_fops_ok limit : forall ops st, fam_ok st ->
+  Forall2 (fun a o => snd a = FSkip pt \/ snd a = fop_raw limit (fst a) o) (run_fops limit st ops) ops.
+Proof.
+  induction ops as [|o ops IH]; intros st F; cbn [Bip32.run_fops]; [constructor|].
+  destruct (run_fop limit st o) as [x st1] eqn:R.
+  destruct (run_fop_ok limit st o x st1 F R) as [E F1].
+  constructor; [exact E|apply IH; exact F1].
+Qed.
+
+Lemma fam_ok_single root : fam_ok [(root, [])].
+Proof. constructor; [apply cache_ok_nil|constructor]. Qed.
+
+(* a public-only node never yields a node with a secret, whatever is asked of it *)
+Lemma node_init_pub_secret chain d f i P nd : node_init chain d f i None (Some P) = Ret nd -> nd_secret pt nd = None.
+Proof.
+  unfold Bip32.node_init, Bip32.key_init. intros H. destruct (pt_eqb P pO); cbn [bind] in H; [discriminate|].
+  destruct (negb _) in H; [discriminate|]. destruct (negb _) in H; [discriminate|]. injection H as <-. reflexivity.
+Qed.
+
+Lemma public_never_private nd i h ap c :
+  nd_secret pt nd = None -> subkey_raw nd i h ap = Ret c -> nd_secret pt c = None.
+Proof.
+  intros S H. unfold Bip32.subkey_raw in H. rewrite S in H.
+  destruct (i <? 0); [discriminate|]. destruct (2147483648 <=? i); [discriminate|].
+  destruct h; [discriminate|].
+  match type of H with bind ?m _ = _ => destruct m as [key| |] eqn:K end; cbn [bind] in H; try discriminate.
+  match type of K with bind ?m _ = _ => destruct m as [[Q c0]| |] end; cbn [bind] in K; try discriminate.
+  apply node_init_pub_secret in K.
+  destruct ap; [injection H as <-; exact K|]. unfold Bip32.public_copy in H. apply node_init_pub_secret in H. exact H.
+Qed.
+
 End WithGroup.
 
 (* ---------------------------------------------------------------------------------------------- *)
